@@ -10,27 +10,43 @@ os.makedirs(d, exist_ok=True)
 shutil.copy(diff, os.path.join(d, "patch.diff"))
 shutil.copy(demo, os.path.join(d, "demo.py"))
 ver = json.load(open(f"/tmp/wt/verify_{sid}.json")) if os.path.exists(f"/tmp/wt/verify_{sid}.json") else None
-subprocess.run(["git", "-C", "/repo", "apply", diff], check=True)
+# PKG_WORKTREE=1: measure in a scratch worktree of /repo's HEAD (VERIF_REPO override: /repo untouched, no evidence written),
+# so that several seeds can be packaged in parallel
+WT = os.environ.get("PKG_WORKTREE")
+env = dict(os.environ)
+if WT:
+    wt = f"/tmp/wt/par/pkg_{sid}"
+    subprocess.run(["git", "-C", "/repo", "worktree", "remove", "--force", wt], capture_output=True)
+    subprocess.run(["git", "-C", "/repo", "worktree", "add", "-q", wt, "HEAD"], check=True)
+    subprocess.run(["git", "-C", wt, "apply", os.path.abspath(diff)], check=True)
+    env.update(VERIF_REPO=wt, VERIF_REPLAYS=f"/tmp/wt/par/pkgreplays_{sid}", VERIF_JOBS=env.get("VERIF_JOBS", "4"))
+else:
+    subprocess.run(["git", "-C", "/repo", "apply", diff], check=True)
 caught = {}
 try:
     for pid in pids:
-        r = subprocess.run([os.path.join(V, "check"), pid, "--tier", "quick"], capture_output=True, text=True, cwd=V)
+        r = subprocess.run([os.path.join(V, "check"), pid, "--tier", "quick"], capture_output=True, text=True, cwd=V, env=env)
         viol = [l.split("obligation=")[1].split()[0] if "obligation=" in l else l for l in r.stdout.splitlines() if l.startswith("VIOLATION")]
         nf = [l for l in r.stdout.splitlines() if l.startswith("VIOLATION") and l.rstrip().endswith("no-failing-input-found")]
         caught[pid] = {"exit": r.returncode, "violations": len(viol), "obligations": viol[:6],
                        "native_replays_confirmed": len(viol) - len(nf)}
 finally:
-    subprocess.run(["git", "-C", "/repo", "checkout", "--", "."], check=True)
-    for f in os.listdir(os.path.join(V, "replays")):
-        if f.endswith(".json"):
-            os.remove(os.path.join(V, "replays", f))
+    if WT:
+        subprocess.run(["git", "-C", "/repo", "worktree", "remove", "--force", wt], capture_output=True)
+        shutil.rmtree(env["VERIF_REPLAYS"], ignore_errors=True)
+    else:
+        subprocess.run(["git", "-C", "/repo", "checkout", "--", "."], check=True)
+        for f in os.listdir(os.path.join(V, "replays")):
+            if f.endswith(".json"):
+                os.remove(os.path.join(V, "replays", f))
 meta = {
     "id": sid, "breaks_property": prop, "source": "independent sub-agent given only the property text and a scratch worktree",
     "needs_to_manifest": needs,
     "confirmed_by_me": ver,
     "what_i_ran": ["tools/verify_seed.sh (scratch worktree of /repo HEAD, removed afterwards): demo on the clean tree, demo with the patch, "
                    "stable baseline test files with the patch",
-                   "tools/package_seed.py: git -C /repo apply patch.diff; ./check <PID> --tier quick; git -C /repo checkout -- ."],
+                   ("tools/package_seed.py: scratch worktree of /repo HEAD + patch.diff; VERIF_REPO=<worktree> ./check <PID> --tier quick; worktree removed"
+                    if WT else "tools/package_seed.py: git -C /repo apply patch.diff; ./check <PID> --tier quick; git -C /repo checkout -- .")],
     "detected_by": caught,
     "detected": any(v["exit"] == 1 for v in caught.values()),
 }
